@@ -22,6 +22,10 @@ struct FaultCfg {
 	uint64_t callsThisArm = 0;
 	bool budgetExceeded = false;
 	uint64_t eintrTick = 0;
+	// paths the library opened for writing, renamed or removed while armed (fixed storage: the seam must not allocate)
+	static const int kMaxTouched = 48;
+	char touched[kMaxTouched][400];
+	int touchedCount = 0;
 	// counters (since last reset)
 	uint64_t syscalls = 0, firedShortRead = 0, firedShortWrite = 0, firedEintr = 0, firedReaddir = 0, sunkBytes = 0;
 };
